@@ -23,6 +23,8 @@ def run_model(ctx, sub, lines):
 
 
 def flow_of(pid):
+    if pid.startswith("site:"):
+        return "capture-site"
     m = re.match(r"gen:\d+:\d+:(.+)$", pid)
     return m.group(1) if m else ("main-stream" if pid.startswith("gen:") else "corpus")
 
@@ -37,6 +39,11 @@ def run(ctx):
     rows = vlib.read_tsv(os.path.join(ctx.run_dir, "c08.cases.tsv")) if os.path.exists(os.path.join(ctx.run_dir, "c08.cases.tsv")) else []
     cases = [r for r in rows if len(r) >= 4 and r[1] == "CASE"]
     tyloss = [r for r in rows if len(r) >= 3 and r[1] == "TYLOSS"]
+    # closedness of the REAL Lift file (computed by the harness on the real IR, no model involved)
+    unbound = {}
+    for r in rows:
+        if len(r) >= 4 and r[1] == "UNBOUND":
+            unbound.setdefault(r[0], []).append((r[2], r[3]))
     for r in tyloss[:5]:
         ctx.broken_ties.append(("dump loses a type the pass reads", f"{r[0]}: stored type of `{r[2]}` differs from the type recomputed by Lift.monoTy"))
 
@@ -148,6 +155,12 @@ def run(ctx):
         if len(samples) < 3 and pid.startswith("gen") and ncl > 1:
             samples.append({"id": pid, "flow": fl, "src": (d.get("src") or "")[:700], "stdout": vlib.unesc(ref[1])[:160],
                             "closures": ncl, "validator": sv[0] if sv else None})
+    for pid, pairs in unbound.items():
+        d = progs.get(pid, {})
+        role = "apply-function" if any(f.startswith("inherent#closure_env_") for f, _ in pairs) else "function"
+        ctx.report({"oracle": "closed", "stage": "lift", "where": role},
+                   "a lifted function refers to an unbound local: a variable of its defining scope that the closure did not capture",
+                   {"id": pid, "flow": flow_of(pid), "src": d.get("src"), "unbound": [{"function": f, "variable": v} for f, v in pairs[:5]]})
     rejected = [pid for pid, d in progs.items() if "reject" in d]
     panics = [(pid, d) for pid, d in progs.items() if "panic" in d]
     for pid, d in panics[:3]:
@@ -165,6 +178,7 @@ def run(ctx):
         "closures_lifted": sum(int(s.get("closures", 0)) for s in stats.values()),
         "closure_nodes_left_in_model_output": sum(int(s.get("closure_nodes_left", 0)) for s in stats.values()),
         "oracle_all_stages_agree(go valid)": n_agree, "impl_oracle_failures": len(ctx.violations),
+        "lift_files_not_closed": len(unbound), "capture_site_programs": by_flow.get("capture-site", {}).get("programs", 0),
         "go_invalid(owned by C02)": n_invalid, "go_invalid_by_gocheck_code": invalid_kinds,
         "go_invalid_and_Sem(lift)!=Sem(mono)": n_invalid_liftdiff,
         "fuel_exhausted(skipped)": n_fuel, "extern_calls(skipped)": n_ext,
